@@ -371,6 +371,20 @@ class Ctx:
             ok = bool(np.all(np.abs(np.asarray(got, dtype=float) - np.asarray(exp, dtype=float)) <= float(tol) * (1 + 1e-9) + 1e-12))
             self.obligations.append(Obligation(name, ok, None, None if ok else "got %r exp %r tol %r" % (got, exp, tol)))
 
+    def read(self, name, fn, exp):
+        """one guarded read of the API under test: `fn()` must not raise and must equal `exp` (both concrete per path)"""
+        try:
+            got = fn()
+        except (Abort, NotEncodable, core.PathException):
+            raise
+        except self.unit.raises if self.unit is not None else ():
+            raise
+        except Exception as e:
+            self.obligations.append(Obligation(name, z3.BoolVal(False) if self.sym else False, None, "raised %s: %s @ %s" % (type(e).__name__, e, _where(e))))
+            return None
+        self.concrete_equal(name, got, exp)
+        return got
+
     def concrete_equal(self, name, got, exp):
         """both sides are concrete on every path (topology, counts)"""
         ok = _deep_equal(got, exp)
@@ -548,7 +562,13 @@ def run_unit(prop_id, unit, tier, seed=0):
     }
     rng = random.Random((seed or 0) * 7919 + int(hashlib.sha1(unit.name.encode()).hexdigest()[:6], 16))
 
+    vcount = {}
+
     def violation(values, ob_name, detail, how):
+        vcount[ob_name] = vcount.get(ob_name, 0) + 1
+        if vcount[ob_name] > 2:
+            res["suppressed_duplicates"] = res.get("suppressed_duplicates", 0) + 1
+            return
         path = save_replay(prop_id, unit, values, ob_name, detail, how)
         res["violations"].append({"unit": unit.name, "key": unit.key, "obligation": ob_name, "detail": (detail or "")[:600], "replay": path, "found_by": how,
                                   "inputs": {k: (float(v) if not isinstance(v, (bool, int)) else v) for k, v in list(values.items())[:24]}})
@@ -623,7 +643,9 @@ def run_unit(prop_id, unit, tier, seed=0):
             # the real code raised on a feasible path: confirm with a model + concrete replay
             r, model = _solve(eng, pr, [], unit.ob_ms, seed)
             res["obligations"] += 1
-            if r == "sat":
+            if r == "sat" and vcount.get("no-exception", 0) >= 2:
+                res["suppressed_duplicates"] = res.get("suppressed_duplicates", 0) + 1
+            elif r == "sat":
                 vals = _model_values(model, pr.inputs)
                 status, failed, cctx = run_concrete(unit, vals, tier)
                 if failed:
@@ -654,6 +676,10 @@ def run_unit(prop_id, unit, tier, seed=0):
                 res["discharged"] += len(obs)
                 pending = []
         for ob in pending:
+            if vcount.get(ob.name, 0) >= 2:
+                # this obligation already has reproduced counterexamples from other paths: do not pile up duplicates
+                res["suppressed_duplicates"] = res.get("suppressed_duplicates", 0) + 1
+                continue
             r, model = _solve(eng, pr, [z3.Not(ob.prop)], unit.ob_ms, seed)
             if r == "unsat":
                 res["discharged"] += 1
